@@ -660,3 +660,5 @@ def run(chk):
     rule_once(chk)
     rule_tail(chk)
     rule_add_dispatch(chk)
+    from . import c02
+    c02.rule_exit_order(chk)  # generation side: nothing may be logged under an action after its end message, or the parser rejects the stream
